@@ -13,6 +13,19 @@ use crate::keys::{self, pb_bytes, pb_varint, uvarint};
 const DOM: [&str; 2] = ["verif-domain", "other-domain"];
 const TYP: [&[u8]; 2] = [b"/verif/type", b"/other/type"];
 const PAY: [&[u8]; 2] = [b"the payload", b"another payload"];
+/// the shapes a foreign ("1") field takes: unrelated, an extension of the original, a prefix of it, empty
+const DOM_F: [&str; 4] = ["other-domain", "verif-domain-x", "verif-domai", ""];
+const TYP_F: [&[u8]; 4] = [b"/other/type", b"/verif/type/x", b"/verif/typ", b""];
+const PAY_F: [&[u8]; 4] = [b"another payload", b"the payload!", b"the payloa", b""];
+fn dom_v(bit: usize, v: usize) -> &'static str {
+    if bit == 0 { DOM[0] } else { DOM_F[v] }
+}
+fn typ_v(bit: usize, v: usize) -> &'static [u8] {
+    if bit == 0 { TYP[0] } else { TYP_F[v] }
+}
+fn pay_v(bit: usize, v: usize) -> &'static [u8] {
+    if bit == 0 { PAY[0] } else { PAY_F[v] }
+}
 
 /// independent implementation of RFC 0002's signature buffer
 fn sig_buffer(domain: &str, typ: &[u8], payload: &[u8]) -> Vec<u8> {
@@ -98,32 +111,37 @@ fn env_grid(out: &mut Out, path: &str) {
         let t = vcommon::s(&s, "kt");
         let g = |k: &str| vcommon::n(&s, k) as usize;
         let (key, dom, tsig, tenv, pay) = (g("key"), g("dom"), g("tsig"), g("tenv"), g("pay"));
-        let r = vcommon::guard(|| {
-            let signer = keys::keypair(&t);
-            let other = keys::other(&t);
-            // the verifier expects (DOM[0], TYP[0]); the envelope carries TYP[tenv], PAY[0] and the key `key`;
-            // the signature was made by `signer` over (DOM[dom], TYP[tsig], PAY[pay])
-            let sig = signer.sign(&sig_buffer(DOM[dom], TYP[tsig], PAY[pay])).expect("sign");
-            let carried = if key == 0 { signer.public() } else { other.public() };
-            let bytes = envelope_bytes(&carried.encode_protobuf(), TYP[tenv], PAY[0], &sig);
-            match SignedEnvelope::from_protobuf_encoding(&bytes) {
-                Err(_) => json!({"decoded": false, "accepted": false, "same": true}),
-                Ok(env) => match env.payload_and_signing_key(DOM[0].to_string(), TYP[0]) {
-                    Err(_) => json!({"decoded": true, "accepted": false, "same": true, "reenc": env.clone().into_protobuf_encoding() == bytes}),
-                    Ok((p, k)) => json!({"decoded": true, "accepted": true, "same": p == PAY[0] && *k == carried, "reenc": env.clone().into_protobuf_encoding() == bytes}),
-                },
-            }
-        });
-        let mut rec = s.clone();
-        match r {
-            Ok(v) => {
-                for (k, x) in v.as_object().unwrap() {
-                    rec[k] = x.clone();
+        // a vector without foreign fields has one shape; every other one is built with each foreign shape
+        let shapes = if dom + tsig + tenv + pay == 0 { 1 } else { 4 };
+        for v in 0..shapes {
+            let r = vcommon::guard(|| {
+                let signer = keys::keypair(&t);
+                let other = keys::other(&t);
+                // the verifier expects (DOM[0], TYP[0]); the envelope carries typ(tenv), PAY[0] and the key `key`;
+                // the signature was made by `signer` over (dom(dom), typ(tsig), pay(pay))
+                let sig = signer.sign(&sig_buffer(dom_v(dom, v), typ_v(tsig, v), pay_v(pay, v))).expect("sign");
+                let carried = if key == 0 { signer.public() } else { other.public() };
+                let bytes = envelope_bytes(&carried.encode_protobuf(), typ_v(tenv, v), PAY[0], &sig);
+                match SignedEnvelope::from_protobuf_encoding(&bytes) {
+                    Err(_) => json!({"decoded": false, "accepted": false, "same": true}),
+                    Ok(env) => match env.payload_and_signing_key(DOM[0].to_string(), TYP[0]) {
+                        Err(_) => json!({"decoded": true, "accepted": false, "same": true, "reenc": env.clone().into_protobuf_encoding() == bytes}),
+                        Ok((p, k)) => json!({"decoded": true, "accepted": true, "same": p == PAY[0] && *k == carried, "reenc": env.clone().into_protobuf_encoding() == bytes}),
+                    },
                 }
+            });
+            let mut rec = s.clone();
+            rec["shape"] = json!(v);
+            match r {
+                Ok(v) => {
+                    for (k, x) in v.as_object().unwrap() {
+                        rec[k] = x.clone();
+                    }
+                }
+                Err(m) => rec["panic"] = json!(m),
             }
-            Err(m) => rec["panic"] = json!(m),
+            out.ev(rec);
         }
-        out.ev(rec);
     }
 }
 
@@ -184,6 +202,49 @@ fn prec_grid(out: &mut Out, path: &str) {
             Err(m) => rec["panic"] = json!(m),
         }
         out.ev(rec);
+    }
+    // domain / payload type that extend or truncate the API's own constants (foreign, but sharing a prefix)
+    for t in keys::TYPES {
+        for api in ["legacy", "interop"] {
+            for (dshape, tshape) in [("own", "ext"), ("own", "cut"), ("ext", "own"), ("cut", "own"), ("ext", "ext")] {
+                let r = vcommon::guard(|| {
+                    let signer = keys::keypair(t);
+                    let addrs: Vec<Multiaddr> = vec!["/ip4/1.2.3.4/tcp/5".parse().unwrap()];
+                    let rec_peer = signer.public().to_peer_id();
+                    let payload = record_payload(&rec_peer, 42, &addrs);
+                    let (d0, t0) = if api == "legacy" { LEGACY } else { INTEROP };
+                    let d: String = match dshape {
+                        "ext" => format!("{d0}-x"),
+                        "cut" => d0[..d0.len() - 1].to_string(),
+                        _ => d0.to_string(),
+                    };
+                    let ty: Vec<u8> = match tshape {
+                        "ext" => [t0, &[0x01u8][..]].concat(),
+                        "cut" => t0[..t0.len() - 1].to_vec(),
+                        _ => t0.to_vec(),
+                    };
+                    let sig = signer.sign(&sig_buffer(&d, &ty, &payload)).expect("sign");
+                    let bytes = envelope_bytes(&signer.public().encode_protobuf(), &ty, &payload, &sig);
+                    let env = match SignedEnvelope::from_protobuf_encoding(&bytes) {
+                        Ok(e) => e,
+                        Err(_) => return json!({"accepted": false, "fields_ok": true}),
+                    };
+                    let res = if api == "legacy" { PeerRecord::from_signed_envelope(env) } else { PeerRecord::from_signed_envelope_interop(env) };
+                    json!({"accepted": res.is_ok(), "fields_ok": true})
+                });
+                // for the relation: a shape other than "own" is a value different from the API's
+                let mut rec = json!({"kind": "prec", "kt": t, "api": api, "dom": if dshape == "own" { api } else { dshape }, "typ": if tshape == "own" { api } else { tshape }, "key": 0, "peer": 0});
+                match r {
+                    Ok(v) => {
+                        for (k, x) in v.as_object().unwrap() {
+                            rec[k] = x.clone();
+                        }
+                    }
+                    Err(m) => rec["panic"] = json!(m),
+                }
+                out.ev(rec);
+            }
+        }
     }
     // the crate's own constructors round-trip through both APIs
     for t in keys::TYPES {
